@@ -201,7 +201,10 @@ def findingKey (s : Sys) (c : Nat) (st : Stmt) : String :=
 inductive Ev
   | connect (named : Bool)           -- FakeSnow.connect(): a new fake connection, opened with (`named`) or without a
                                      -- database/schema argument – every connection gets its own engine connection either way
-  | cursor (c : Nat)                 -- conn.cursor() on fake connection c
+  | cursor (c : Nat) (foreign : Bool) -- conn.cursor() on fake connection c, called from the thread that opened the connection or
+                                     -- (`foreign`) from another thread: the cursor uses the connection's engine connection either way
+  | blockExit (c : Nat) (exc : Bool)  -- a `with conn:` / `with conn.cursor():` block of connection c ends, normally or by an
+                                     -- exception: `__exit__` does nothing – no statement runs, no transaction ends
   | exec (k : Nat) (st : Stmt)       -- cursor k executes st
   | connCommit (c : Nat)             -- conn.commit()
   | connRollback (c : Nat)           -- conn.rollback()
@@ -227,7 +230,8 @@ def World.step (shared : Bool) (m : Mode) (w : World) : Ev → World × Option O
   | .connect named =>
     if shared && !named then ({ w with conns := w.conns ++ [sharedId] }, none)
     else ({ w with conns := w.conns ++ [w.next], next := w.next + 1 }, none)
-  | .cursor c =>
+  | .blockExit _ _ => (w, none)
+  | .cursor c _ =>
     match w.conns[c]? with
     | none => (w, none)
     | some d => ({ w with curs := w.curs ++ [(c, d)] }, none)
@@ -259,7 +263,8 @@ structure Book where
 
 def Book.step (b : Book) : Ev → Book × Option (Nat × Stmt)
   | .connect _ => ({ b with nconns := b.nconns + 1 }, none)
-  | .cursor c => if c < b.nconns then ({ b with cursConn := b.cursConn ++ [c] }, none) else (b, none)
+  | .blockExit _ _ => (b, none)
+  | .cursor c _ => if c < b.nconns then ({ b with cursConn := b.cursConn ++ [c] }, none) else (b, none)
   | .exec k st => (b, b.cursConn[k]?.map fun c => (c, st))
   | .connCommit c => if c < b.nconns then (b, some (c, .commit)) else (b, none)
   | .connRollback c => if c < b.nconns then (b, some (c, .rollback)) else (b, none)
